@@ -254,6 +254,14 @@ func runC03Req(c *Ctx, wl *walkLayers) {
 						// a plain bool parameter instead of the optional variadic one
 						if b, known := isCstBool(f); known {
 							strict = !b
+						} else if callee := p.funcByName(name); callee != nil && len(callee.Params) >= 4 {
+							// any other representation of the mode (an enum, ...): ask the walker itself what
+							// it does with a non-struct value under this argument
+							if st, known := walkerStrictFor(p, callee, 3, f); known {
+								strict = st
+							} else {
+								strict = true
+							}
 						} else {
 							strict = true
 						}
@@ -326,6 +334,10 @@ func finalMask(ps Pass, key string) uint32 {
 			set = validKinds
 		case label == "ptr":
 			set = kmask(reflect.Ptr)
+		case strings.HasPrefix(label, "table:0x"):
+			var mm uint32
+			fmt.Sscanf(strings.TrimPrefix(label, "table:"), "0x%x", &mm)
+			set = mm
 		default:
 			if i := kindOfName(label); i >= 0 {
 				set = 1 << uint(i)
